@@ -28,7 +28,7 @@
     round and healing within a bound. *)
 From stdpp Require Import gmap.
 From Drummer.Model Require Import DB Sched Fleet FleetRun FleetExample.
-From Drummer.Proofs Require Import FleetProofs.
+From Drummer.Proofs Require Import DBTimeProofs FleetProofs.
 Local Open Scope N_scope.
 
 (** * (i) the invariant of all executions *)
@@ -56,6 +56,14 @@ Theorem C01_inv : forall (P : params) (st0 : fstate) (evs : list event),
   init_ok st0 -> fresh_run P st0 evs -> exists st, steps P st0 evs = Some st /\ LoopInv st.
 Proof. intros P st0 evs H0 Hf. apply run_inv; [by apply init_inv|done]. Qed.
 Print Assumptions C01_inv.
+
+(* ticks_ordered: along every execution every stored report time (of a replica, of a NodeHost, of a
+   stored report) stays at or below the DB's logical time, so the unsigned subtractions of the
+   failure detector (C05) never wrap *)
+Theorem C01_ticks_ordered : forall (P : params) (evs : list event) (st0 st : fstate),
+  time_ok (f_db st0) -> steps P st0 evs = Some st -> time_ok (f_db st).
+Proof. exact run_time_ok. Qed.
+Print Assumptions C01_ticks_ordered.
 
 (** * closed-loop consequences *)
 
